@@ -126,7 +126,6 @@ func verifCopyDir(src, dst string) error {
 	return nil
 }
 
-
 // aggregateWorks does what the per-chain AggregateMintWork / AggregateRoundSpace loops do
 // (they are off under the aggregator mock): for every chain write the work of its closed
 // rounds in order, crediting a round when the next round starts on the same day, and move
@@ -245,7 +244,6 @@ func (f *verifFeed) buildMint(w *verifgen.Wallet) (crypto.Hash, *common.Versione
 	tx.SignaturesMap = []map[uint16]*crypto.Signature{{0: &sig}}
 	return eid, tx, ts, nil
 }
-
 
 // buildPledge funds and builds a node pledge for a fresh candidate, to be proposed by the
 // elected chain at a pledge hour at least 12 h after the latest membership record.
